@@ -41,18 +41,34 @@ from ..interpolatableFunction import InterpolatableFunction, inputType, outputTy
 
 
 def _integrator(
-    func: typing.Callable, a: float, b: float
+    func: typing.Callable, a: float, b: float, points: list[float] | None = None
 ) -> float:
     """
-    Simple wrapper for scipy.integrate.quad with defaults inbuilt
+    Simple wrapper for scipy.integrate.quad with defaults inbuilt. Interior points where
+    the integrand is singular or discontinuous can be passed in ``points``.
     """
     res = scipy.integrate.quad(
         func,
         a,
         b,
         limit=100,
+        points=points if points else None,
     )
     return float(res[0])
+
+
+def _interiorSingularPoints(x: float, firstMultiple: int) -> list[float]:
+    """
+    For x < 0 the integrands on 0 < y < sqrt(-x) are singular (real part) or jump
+    (imaginary part) where sqrt(-x - y^2) = k*pi, with k = 2, 4, ... for Jb
+    (firstMultiple=2) and k = 1, 3, ... for Jf (firstMultiple=1).
+    """
+    points = []
+    k = firstMultiple
+    while (k * np.pi) ** 2 < -x:
+        points.append(float(np.sqrt(-x - (k * np.pi) ** 2)))
+        k += 2
+    return points
 
 
 class JbIntegral(InterpolatableFunction):
@@ -142,11 +158,13 @@ class JbIntegral(InterpolatableFunction):
                 )
                 resImag = 0.0
             else:
+                singularPoints = _interiorSingularPoints(xWrapper, 2)
                 resReal = (
                     _integrator(
                         lambda y: JbIntegral._integrandNegativeReal(xWrapper, y),
                         0.0,
-                        np.sqrt(np.abs(xWrapper))
+                        np.sqrt(np.abs(xWrapper)),
+                        singularPoints,
                     )
                     + _integrator(
                         lambda y: JbIntegral._integrandPositiveReal(xWrapper, y),
@@ -157,7 +175,8 @@ class JbIntegral(InterpolatableFunction):
                 resImag = _integrator(
                     lambda y: JbIntegral._integrandNegativeImaginary(xWrapper, y),
                     0.0,
-                    np.sqrt(np.abs(xWrapper))
+                    np.sqrt(np.abs(xWrapper)),
+                    singularPoints,
                 )
 
             return complex(resReal + 1j * resImag)
@@ -259,11 +278,13 @@ class JfIntegral(InterpolatableFunction):
                 )
                 resImag = 0.0
             else:
+                singularPoints = _interiorSingularPoints(xWrapper, 1)
                 resReal = (
                     _integrator(
                         lambda y: JfIntegral._integrandNegativeReal(xWrapper, y),
                         0.0,
-                        np.sqrt(np.abs(xWrapper))
+                        np.sqrt(np.abs(xWrapper)),
+                        singularPoints,
                     )
                     + _integrator(
                         lambda y: JfIntegral._integrandPositiveReal(xWrapper, y),
@@ -274,7 +295,8 @@ class JfIntegral(InterpolatableFunction):
                 resImag = _integrator(
                     lambda y: JfIntegral._integrandNegativeImaginary(xWrapper, y),
                     0.0,
-                    np.sqrt(np.abs(xWrapper))
+                    np.sqrt(np.abs(xWrapper)),
+                    singularPoints,
                 )
 
             return complex(resReal + 1j * resImag)
